@@ -39,6 +39,7 @@ type c18W struct {
 	BatchSize int        `json:"batch_size,omitempty"`
 	RecvErrAt int        `json:"recv_error_at"` // -1: the client stream ends normally
 	AddFails  bool       `json:"add_fails,omitempty"` // streambatch: the driver's add functions report an error (disk full)
+	LongRun   bool       `json:"long_run,omitempty"`
 }
 
 func init() {
@@ -81,6 +82,25 @@ func genC18(r *Rng, tier string, mode string) *c18W {
 		if n > 250 {
 			n = 250
 		}
+	}
+	if mode != "streambatch" && r.Chance(3) {
+		// a long run of distinct elements for one graph: "any stream length",
+		// beyond every chunk or flush size an implementation might use
+		n = []int{1001, 1500, 2003, 4100}[r.Intn(4)]
+		if tier != "thorough" && n > 2003 {
+			n = 1001
+		}
+		w.LongRun = true
+		for i := 0; i < n; i++ {
+			el := bulkElem{G: "g1"}
+			if i%3 != 2 {
+				el.V = &model.Vertex{ID: fmt.Sprintf("u%d", i), Label: gen.VLabels[i%len(gen.VLabels)], Data: map[string]interface{}{"x": float64(i)}}
+			} else {
+				el.E = &model.Edge{ID: fmt.Sprintf("ue%d", i), Label: gen.ELabels[i%len(gen.ELabels)], From: fmt.Sprintf("u%d", i-1), To: fmt.Sprintf("u%d", i-2)}
+			}
+			w.Stream = append(w.Stream, el)
+		}
+		return w
 	}
 	cur := graphs[r.Intn(len(graphs))]
 	for i := 0; i < n; i++ {
@@ -240,6 +260,10 @@ func execC18(w *c18W, x *Exec) *Outcome {
 	if cfg.MaxSteps == 0 {
 		cfg.MaxSteps = 2000000
 	}
+	if w.LongRun {
+		cfg.MaxSteps = 30000000
+		o.Count("fault:stream_longer_than_any_chunk", 1)
+	}
 	var result *gripql.BulkEditResult
 	var handlerErr error
 	var got *obs
@@ -305,7 +329,9 @@ func execC18(w *c18W, x *Exec) *Outcome {
 		o.Count("stream_with_generated_edge_ids", 1)
 	} else if k, wv, gv := want.diff(got); k != "" {
 		shape := "plain stream"
-		if readdChanged {
+		if w.LongRun {
+			shape = "long run of distinct elements"
+		} else if readdChanged {
 			shape = "stream re-adding an existing edge id with other endpoints or label"
 		} else if unroutable > 0 {
 			shape = "stream with elements for a missing or schema graph"
